@@ -11,6 +11,7 @@ import (
 	"fmt"
 	"math"
 	"os"
+	"reflect"
 	"sort"
 
 	"github.com/ctessum/geom"
@@ -26,6 +27,10 @@ func init() {
 }
 
 type engine struct{ prop string }
+
+// forceDeep (env VERIF_RTREE_DEEP, sensitivity experiments only) makes every
+// eligible history a deep-churn history.
+var forceDeep = os.Getenv("VERIF_RTREE_DEEP") != ""
 
 func (e *engine) Info() core.Info {
 	in := core.Info{
@@ -44,7 +49,7 @@ func (e *engine) Info() core.Info {
 			"the multiset model and the oracle's own distance/intersection predicates (written independently of index/rtree/geom.go) are correct",
 			"structural invariants are read through the add-only verif hook index/rtree/walk_verif.go (read-only walk)",
 		},
-		QuickRuns: 100000, ThoroughRuns: 4000000, QuickWallS: 60, ThoroughWallS: 1200,
+		QuickRuns: 60000, ThoroughRuns: 2500000, QuickWallS: 75, ThoroughWallS: 1500,
 	}
 	if e.prop == "C11" {
 		in.Rule = "a case is one seeded history (<=400 ops, one run in 300 up to 7000 ops: insert (also of an already stored object), delete present/absent, intersect queries, over phases grow/churn/drain/drain-all/refill, random branching parameters 2<=min<=max/2, grid or float coordinates, pointer/point/degenerate objects, fan-outs up to 140, and one history in twelve insert-only over slice-typed (uncomparable) geometries); non-trivial = the tree reached depth>=2 AND at least one delete of a stored object happened on a multi-level tree; distinct = distinct hash of the full operation+result log"
@@ -288,7 +293,7 @@ func (r *run) exec() {
 	}
 	ops := 0
 	r.afterOp("init")
-	if !r.bulk && !r.slices && r.max <= 8 && t.OneIn(3, "cfg-deep-churn") {
+	if deep := t.OneIn(3, "cfg-deep-churn"); !r.bulk && !r.slices && r.max <= 8 && (deep || forceDeep) {
 		// deep-churn shape: fill a small-fan-out tree to 50-130 objects (four
 		// and more levels), then churn at that population — elimination
 		// cascades, orphans re-inserted across subtrees, root splits caused by
@@ -393,7 +398,7 @@ func (r *run) insert() {
 		s = r.model[r.t.Choose(len(r.model), "reinsert-which")]
 		r.res.Probe("same-object-inserted-again")
 	}
-	r.log.Event("insert " + objStr(s))
+	r.log.EventL("insert", func() string { return "insert " + objStr(s) }, int64(s.id), fb(s.bb.Min.X), fb(s.bb.Min.Y), fb(s.bb.Max.X), fb(s.bb.Max.Y))
 	p, v, st := core.Protect(func() { r.tree.Insert(s.obj) })
 	if p {
 		r.mutPanic("Insert", v, st)
@@ -440,7 +445,7 @@ func (r *run) deletePresent(order int) {
 	}
 	s := r.model[idx]
 	multi := r.lastDepth >= 2
-	r.log.Event("delete " + objStr(s))
+	r.log.EventL("delete", func() string { return "delete " + objStr(s) }, int64(s.id))
 	var ok bool
 	p, v, st := core.Protect(func() { ok = r.tree.Delete(s.obj) })
 	if p {
@@ -502,7 +507,7 @@ func (r *run) deleteAbsent() {
 		}
 	}
 	before := r.signature(true)
-	r.log.Event("delete-absent " + objStr(s))
+	r.log.EventL("delete-absent", func() string { return "delete-absent " + objStr(s) }, int64(s.id), fb(s.bb.Min.X), fb(s.bb.Min.Y))
 	var ok bool
 	p, v, st := core.Protect(func() { ok = r.tree.Delete(s.obj) })
 	if p {
@@ -540,7 +545,16 @@ func (r *run) signature(full bool) uint64 {
 				h = h.U64(math.Float64bits(e.BB.Min.X)).U64(math.Float64bits(e.BB.Min.Y)).
 					U64(math.Float64bits(e.BB.Max.X)).U64(math.Float64bits(e.BB.Max.Y))
 				if e.Obj != nil {
-					h = h.Str(fmt.Sprintf("%p%v", e.Obj, e.Obj))
+					switch o := e.Obj.(type) {
+					case geom.Point:
+						h = h.U64(math.Float64bits(o.X)).U64(math.Float64bits(o.Y))
+					case *geom.Bounds:
+						h = h.U64(uint64(reflect.ValueOf(o).Pointer()))
+					default:
+						if id, ok := identKey(o).(sliceIdent); ok && id.p != nil {
+							h = h.U64(uint64(reflect.ValueOf(id.p).Pointer())).Int(id.n)
+						}
+					}
 				}
 			}
 		}
@@ -554,9 +568,18 @@ func (r *run) signature(full bool) uint64 {
 // afterOp checks Size and the structural invariants (C11) and records the
 // shape signature.
 func (r *run) afterOp(op string) {
-	if r.bulk && op != "init" {
+	if op != "init" {
 		r.nMut++
-		if r.nMut%61 != 0 {
+	}
+	// the structural walk is O(n): on every mutation while the tree is small,
+	// on every (n/48+1)-th mutation for larger trees, on every 61st in bulk
+	// histories (Size, Delete results and queries are checked on every operation)
+	every := 1 + len(r.model)/48
+	if r.bulk {
+		every = 61
+	}
+	if op != "init" && every > 1 {
+		if r.nMut%every != 0 {
 			// cheap checks only
 			if r.prop == "C11" {
 				if sz := r.tree.Size(); sz != len(r.model) {
@@ -848,19 +871,40 @@ func (r *run) checkHeld(after string) {
 	r.heldRes = nil
 }
 
-func geomKey(g geom.Geom) string {
+func fb(f float64) int64 { return int64(math.Float64bits(f)) }
+
+type sliceIdent struct {
+	p *geom.Point
+	n int
+	t uint8
+}
+
+// identKey is a comparable identity for any stored object: the object itself
+// for comparable ones, (first element, length, type) for slice-typed ones.
+func identKey(g geom.Geom) interface{} {
 	switch v := g.(type) {
+	case geom.LineString:
+		if len(v) > 0 {
+			return sliceIdent{&v[0], len(v), 1}
+		}
+		return sliceIdent{nil, 0, 1}
+	case geom.MultiPoint:
+		if len(v) > 0 {
+			return sliceIdent{&v[0], len(v), 2}
+		}
+		return sliceIdent{nil, 0, 2}
 	case geom.Polygon:
 		if len(v) > 0 && len(v[0]) > 0 {
-			return fmt.Sprintf("%T:%p:%d", g, &v[0][0], len(v[0]))
+			return sliceIdent{&v[0][0], len(v[0]), 3}
 		}
+		return sliceIdent{nil, 0, 3}
 	}
-	return fmt.Sprintf("%T:%p:%v", g, g, g)
+	return g
 }
 
 func (r *run) searchIntersect() {
 	q := r.queryBox()
-	r.log.Eventf("search [%g,%g,%g,%g]", q.Min.X, q.Min.Y, q.Max.X, q.Max.Y)
+	r.log.EventL("search", func() string { return fmt.Sprintf("search [%g,%g,%g,%g]", q.Min.X, q.Min.Y, q.Max.X, q.Max.Y) }, fb(q.Min.X), fb(q.Min.Y), fb(q.Max.X), fb(q.Max.Y))
 	var got []geom.Geom
 	qq := q
 	p, v, st := core.Protect(func() { got = r.tree.SearchIntersect(&qq) })
@@ -868,11 +912,11 @@ func (r *run) searchIntersect() {
 		r.fail("panic", "SearchIntersect", "SearchIntersect panicked: %v %s", v, core.TrimStack(st, 4))
 		return
 	}
-	want := map[string]int{}
+	want := map[interface{}]int{}
 	nwant := 0
 	for _, s := range r.model {
 		if boxesTouch(s.bb, q) {
-			want[geomKey(s.obj)]++
+			want[identKey(s.obj)]++
 			nwant++
 		}
 	}
@@ -890,7 +934,7 @@ func (r *run) searchIntersect() {
 			r.fail("search-mismatch", "", "SearchIntersect returned a nil object")
 			return
 		}
-		k := geomKey(g)
+		k := identKey(g)
 		want[k]--
 		if want[k] < 0 {
 			r.fail("search-mismatch", "", "SearchIntersect(%v) returned %v which the scan does not (or more often than stored); got %d want %d", q, g, len(got), nwant)
@@ -950,7 +994,7 @@ func (r *run) nearest() {
 		return // property speaks of non-empty trees only
 	}
 	pt := r.queryPoint()
-	r.log.Eventf("nn (%g,%g)", pt.X, pt.Y)
+	r.log.EventL("nn", func() string { return fmt.Sprintf("nn (%g,%g)", pt.X, pt.Y) }, fb(pt.X), fb(pt.Y))
 	var got geom.Geom
 	p, v, st := core.Protect(func() { got = r.tree.NearestNeighbor(pt) })
 	if p {
@@ -1004,7 +1048,13 @@ func (r *run) kNearest() {
 	default:
 		k = 1 + r.t.Choose(r.max+2, "k")
 	}
-	r.log.Eventf("knn k=%d (%g,%g)", k, pt.X, pt.Y)
+	if len(r.model) > 150 && k > 40 && !r.t.OneIn(25, "k-huge-on-big-tree") {
+		// NearestNeighbors allocates two k-slices per candidate: k ~ n on a
+		// tree of a thousand objects costs megabytes per query; keep such
+		// queries rare
+		k = 1 + k%40
+	}
+	r.log.EventL("knn", func() string { return fmt.Sprintf("knn k=%d (%g,%g)", k, pt.X, pt.Y) }, int64(k), fb(pt.X), fb(pt.Y))
 	var got []geom.Geom
 	p, v, st := core.Protect(func() { got = r.tree.NearestNeighbors(k, pt) })
 	if p {
@@ -1034,6 +1084,20 @@ func (r *run) kNearest() {
 		return
 	}
 	used := make([]bool, len(r.model))
+	byIdent := map[interface{}][]int{}
+	for i, s := range r.model {
+		key := identKey(s.obj)
+		byIdent[key] = append(byIdent[key], i)
+	}
+	find := func(g geom.Geom) int {
+		key := identKey(g)
+		l := byIdent[key]
+		if len(l) == 0 {
+			return -1
+		}
+		byIdent[key] = l[1:]
+		return l[0]
+	}
 	prev := -1.0
 	for i := 0; i < k; i++ {
 		if i >= m {
@@ -1047,7 +1111,7 @@ func (r *run) kNearest() {
 			r.fail("knn-wrong", "", "NearestNeighbors(%d,%v): slot %d is nil but %d objects are stored (want distance %g; tree depth %d)", k, pt, i, len(r.model), want[i], r.lastDepth)
 			return
 		}
-		idx := r.findStored(got[i], used)
+		idx := find(got[i])
 		if idx < 0 {
 			r.fail("knn-not-stored", "", "NearestNeighbors(%d,%v): slot %d holds %v which is not stored (or returned more often than stored)", k, pt, i, got[i])
 			return
